@@ -1,3 +1,4 @@
+import Treepath.Proofs.RefoldApi
 import Treepath.Model.Descr
 import Treepath.Proofs.MutateLemmas
 import Treepath.Proofs.NaturalNext
@@ -84,5 +85,32 @@ theorem typed_through_get_match (stepsOf : Heap → List (Step Val)) (h : Heap) 
     descrSetS c inner h (.nested m) w = setMatch inner (.nested m) false h (c.unwrap w) ∧
     descrDelS inner h (.nested m) = pop inner (.nested m) none h := by
   refine ⟨by simp [typedMatch, hm], rfl, rfl, rfl⟩
+
+/-- **assigning through an attribute, on the JSON tree**: on a document that is a tree, a
+successful assignment `inst.attr = w` (no cascade) makes the document unfold to the old tree
+with `to_json_value(w)` at the attribute's location — the name of the path's last step inside
+the first node its parent path selects — and nothing else changed (C08's
+`set_is_one_tree_update` through the descriptor) -/
+theorem attr_assignment_is_one_tree_update (c : Conv) (stepsOf : Heap → List (Step Val)) (root : Val) (j jv : J)
+    (h h' : Heap) (w : Val) (m : MNode Val) (hi : DocInv h root j)
+    (hv : UnfJ h jv (c.unwrap w)) (hvn : (fpJ h jv (c.unwrap w)).Nodup)
+    (hfresh : ∀ x ∈ fpJ h jv (c.unwrap w), x ∉ fpJ h j root)
+    (hset : descrSet c stepsOf h root w = (h', .ok m)) :
+    ∃ pm nm j', m = .child pm nm (c.unwrap w) ∧ J.setAt j pm.loc nm jv = some j' ∧ DocInv h' root j' := by
+  simp only [descrSet, descrSetS, setMatch] at hset
+  cases hn : (stepsOf h).length with
+  | zero => rw [hn] at hset; simp [setMatchN] at hset
+  | succ n =>
+    rw [hn] at hset
+    obtain ⟨pm, nm, j', e1, _, e2, e3, _⟩ := setMatch_refines stepsOf root j jv n h h' _ m hi hv hvn hfresh hset
+    exact ⟨pm, nm, j', e1, e2, e3⟩
+
+/-- **`del inst.attr` on the JSON tree**: the entry is removed exactly as `pop` removes it -/
+theorem attr_deletion_is_one_tree_update (stepsOf : Heap → List (Step Val)) (root : Val) (j : J) (h h' : Heap)
+    (mm : Bool) (m : MNode Val) (hi : DocInv h root j)
+    (hpop : popMatch stepsOf (.doc root) mm h = (h', .ok (some m))) :
+    ∃ p nm j', m.parent = some p ∧ J.popAt j p.loc nm = some j' ∧ DocInv h' root j' := by
+  obtain ⟨p, nm, j', e1, _, e2, e3, _⟩ := popMatch_refines stepsOf root j h h' mm m hi hpop
+  exact ⟨p, nm, j', e1, e2, e3⟩
 
 end Treepath.C18
